@@ -583,6 +583,11 @@ def host_variants(rng, h):
         if rng.random() < 0.15 and n["op"] != "Split":
             n["outs"] = n["outs"] + [max(o for m in h2["nodes"] for o in m["outs"]) + 10 + len(hs)]
     hs.append(h2)
+    if any(2 in n["ins"] for n in h["nodes"]):       # the constant operand: a 1-element vector, another value, nearly 1
+        for c in ([1.0], rng.choice([1.5, "other", [1.0, 2.0]]), rng.choice([1.000001, 1.0 + 1e-3])):
+            hc = copy.deepcopy(h)
+            hc["consts"] = {"2": c}
+            hs.append(hc)
     h3 = copy.deepcopy(h)
     produced = [o for n in h3["nodes"] for o in n["outs"]]
     extra = [o for o in produced if o not in h3["outs"]]
@@ -592,6 +597,26 @@ def host_variants(rng, h):
     return hs
 
 
+def _feature_key(p):
+    f = set()
+    for nd in p["nodes"]:
+        f.add({"Add": "bin", "Sub": "bin", "Split": "split"}.get(nd["op"], "un"))
+        for _, a in nd.get("attrs", []):
+            f.add("attr:" + a[0])
+        for k in ("other_attrs", "other_ins", "dom"):
+            if nd.get(k) is not None:
+                f.add(f"{k}={nd[k]}")
+        outs = nd.get("outs", 1)
+        f.add("outs:%s" % (outs if isinstance(outs, int) else "named"))
+        for i in nd["ins"]:
+            if i is None or i[0] in ("const", "any", "ovar"):
+                f.add("in:" + ("none" if i is None else i[0]))
+    for o in p.get("ors", []):
+        f.add("or:" + ",".join(a[0] for a in o["alts"]) + (":tag" if o.get("tagv") else "") + (":name" if o.get("name") else ""))
+    f.add("nout:%d" % len(p["outs"]))
+    return "|".join(sorted(f))
+
+
 def sweep(ctx):
     """(pattern, host, commute, tag, options) over the bounded-exhaustive family; quick = a seeded slice."""
     rng = ctx.rng
@@ -599,7 +624,13 @@ def sweep(ctx):
     small = exhaustive_hosts(2)
     three = exhaustive_hosts(3)[len(small):]
     if ctx.tier == "quick":
-        pats = rng.sample(pats, 45)
+        # a slice that keeps every feature combination of the family: one pattern per combination, then a random rest
+        groups = {}
+        for p in pats:
+            groups.setdefault(_feature_key(p), []).append(p)
+        picked = [rng.choice(groups[k]) for k in sorted(groups)]
+        rest = [p for p in pats if not any(p is q for q in picked)]
+        pats = picked + rng.sample(rest, max(0, 80 - len(picked)))
         hosts = rng.sample(small, 30) + rng.sample(three, 40)
         rate = 0.25
     else:
